@@ -26,6 +26,7 @@ ANCHORS = [("dateparser.utils", "set_correct_day_from_settings"), ("dateparser.u
 PREFS = ["first", "last", "current"]
 FULL_FMTS = ["%d %B %Y", "%Y-%m-%d", "%d/%m/%Y %H:%M", "%A, %d %B %Y"]
 DAY_NO_MONTH_FMTS = ["%d %Y", "%Y %d", "%d %y %H:%M"]
+NO_DAY_TIME_FMTS = ["%B %Y %H:%M", "%Y %H:%M", "%H:%M %B %Y", "at %I:%M %p in %B %Y"]
 # formats offered beside the matching one (kept only when Python's own strptime rejects the string under them): an earlier or
 # later non-matching format of different completeness must not influence the completion or the period
 DECOYS = ["%B %Y", "%Y", "%m/%Y", "%d.%m.%Y", "%H:%M", "%b %y", "%d %B", "%Y/%m/%d %H:%M:%S", "%B", "%d-%m-%Y", "%A", "%j %Y"]
@@ -94,6 +95,18 @@ def expected(c):
         s = (fmt.replace("%d", "%02d" % d).replace("%Y", "%04d" % y).replace("%y", "%02d" % (y % 100))
              .replace("%H", "10").replace("%M", "15"))
         return s, datetime(yy, em, d, hh, mi), "time" if (rtp and "%H" in fmt) else "day", fmt
+    if fmt in NO_DAY_TIME_FMTS:
+        # the day (and perhaps the month) is left to the preferences although the format carries a clock time; asking for
+        # 'time' as the period changes the period only, never the completion
+        hh, mi = 10, 15
+        if "%B" in fmt:
+            em = m
+        else:
+            em = {"first": 1, "last": 12}[pm]
+        dd = {"first": 1, "last": calendar.monthrange(y, em)[1]}[pd]
+        s = fmt.replace("%B", MN[m - 1]).replace("%Y", "%04d" % y).replace("%H", "10").replace("%M", "15").replace("%I", "10") \
+            .replace("%p", "AM")
+        return s, datetime(y, em, dd, hh, mi), "time" if rtp else ("month" if "%B" in fmt else "year"), fmt
     if fmt == "%Y":
         s = "%04d" % y
         em = {"first": 1, "last": 12}[pm]
@@ -180,9 +193,11 @@ def gen_random(rnd):
     if kind in ("full", "full_iso", "full_time"):
         c["d"] = rnd.choice([calendar.monthrange(y, m)[1], rnd.randrange(1, calendar.monthrange(y, m)[1] + 1)])
     if kind == "fmt":
-        c["fmt"] = rnd.choice(["%B %Y", "%m/%Y", "%Y", "%b %y"] + FULL_FMTS + DAY_NO_MONTH_FMTS)
+        c["fmt"] = rnd.choice(["%B %Y", "%m/%Y", "%Y", "%b %y"] + FULL_FMTS + DAY_NO_MONTH_FMTS + NO_DAY_TIME_FMTS)
+        if c["fmt"] in NO_DAY_TIME_FMTS:
+            c["rtp"] = rnd.random() < 0.5
         c["pd"], c["pm"] = rnd.choice(["first", "last"]), rnd.choice(["first", "last"])
-        if (c["fmt"] == "%Y" or c["fmt"] in FULL_FMTS or c["fmt"] in DAY_NO_MONTH_FMTS) and y < 1000:
+        if (c["fmt"] == "%Y" or c["fmt"] in FULL_FMTS or c["fmt"] in DAY_NO_MONTH_FMTS or c["fmt"] in NO_DAY_TIME_FMTS) and y < 1000:
             c["y"] = y = y + 1000
         if c["fmt"] in DAY_NO_MONTH_FMTS:
             c["d"] = rnd.randrange(1, 32)       # January and December both have 31 days
